@@ -5,6 +5,7 @@ import (
 	"flag"
 	"fmt"
 	"os"
+	"runtime/debug"
 	"sort"
 	"time"
 )
@@ -101,6 +102,9 @@ func cmdCheck(args []string) int {
 			if r := recover(); r != nil {
 				c.rules["PANIC"] = "the checker itself must not panic (undecided = failed)"
 				c.Obls = append(c.Obls, Obligation{Rule: "PANIC", Instance: "checker", Pos: "-", OK: false, Msg: fmt.Sprint(r)})
+				if os.Getenv("BUFSA_TRACE") != "" {
+					debug.PrintStack()
+				}
 				if os.Getenv("BUFSA_DEBUG") != "" {
 					panic(r)
 				}
